@@ -19,13 +19,13 @@ def run(ctx):
         plan = {"mc": [("time_mem", mem, PROPS, dict(family=("lease", "deqvar"), horizon=20, maxep=2, maxins=1, ticks=(5, 10), delays=(0, 5), ttls=(5, 10))),
                        ("time_sql", sql, PROPS, dict(family=("lease", "deqvar"), horizon=20, maxep=2, maxins=1, ticks=(5, 10), delays=(0, 5), ttls=(5,)))],
                 "gen": [("time", mem, dict(family=("lease",), horizon=20, maxep=2, maxins=1, pick="insertion", ttls=(5,), ticks=(5, 10), delays=(0, 5)), 2)],
-                "drv": [("time", "time", 150, 70, {})]}
+                "drv": [("time", "time", 150, 70, dict(churn_every=60))]}
     else:
         plan = {"mc": [("time_mem", mem, PROPS, dict(family=("lease", "deqvar"), horizon=30, maxep=2, maxins=2, ticks=(1, 5, 10), delays=(0, 7), ttls=(5, 10), timeout=3000)),
                        ("time_sql", sql, PROPS, dict(family=("lease", "deqvar"), horizon=30, maxep=2, maxins=2, ticks=(1, 5, 10), delays=(0, 7), ttls=(5, 10), timeout=3000))],
                 "gen": [("time", mem, dict(family=("lease", "deqvar"), horizon=30, maxep=2, maxins=2, pick="insertion", ttls=(5, 10), ticks=(5, 10), delays=(0, 5)), 1),
                         ("time_sql", sql, dict(family=("lease", "deqvar"), horizon=30, maxep=2, maxins=1, pick="nextrun", ttls=(5,), ticks=(1, 9, 10), delays=(0, 5)), 1)],
-                "drv": [("time", "time", 4000, 90, {})]}
+                "drv": [("time", "time", 4000, 90, dict(churn_every=100))]}
     q.liveness(ctx)
     q.pull_part(ctx, 24 if ctx.quick else 400, 50, 4)
     q.run_plan(ctx, plan, RULE, assumptions=["long-poll waiting (MaxWait > 0) uses real time and is kept 0 at this layer",
